@@ -27,12 +27,16 @@ pub fn check(txs: &[Transaction], rep: &TaxReport) -> Vec<Diff> {
             _ => {}
         }
     }
-    // u(d,e): product of ratios of days t with d <= t < e ; e=None means to the end
+    // u(d,e): product of ratios of days t with d < t <= e ; e=None means to the end (a day's SPLIT/UNSPLIT comes
+    // before that day's trades: docs/spec.md, fix 9568b9a)
     let u = |days: &BTreeMap<NaiveDate, Day>, d: NaiveDate, e: Option<NaiveDate>| -> Rat {
         let mut r = Rat::one();
         for (t, day) in days.range(d..) {
+            if *t == d {
+                continue;
+            }
             if let Some(e) = e {
-                if *t >= e {
+                if *t > e {
                     break;
                 }
             }
@@ -129,12 +133,12 @@ pub fn check(txs: &[Transaction], rep: &TaxReport) -> Vec<Diff> {
 fn exact_scope(days: &BTreeMap<NaiveDate, Day>, rep: &TaxReport, tk: &str) -> bool {
     let mut run = Rat::zero();
     for day in days.values() {
-        run = (&run + &(&day.b - &day.s)) * &day.ratio;
+        run = &run * &day.ratio;
         if !run.is_finite_decimal() {
             return false;
         }
-        let pre = &run / &day.ratio;
-        if !pre.is_finite_decimal() {
+        run = &run + &(&day.b - &day.s);
+        if !run.is_finite_decimal() {
             return false;
         }
     }
@@ -142,7 +146,7 @@ fn exact_scope(days: &BTreeMap<NaiveDate, Day>, rep: &TaxReport, tk: &str) -> bo
         for d in y.disposals.iter().filter(|d| d.ticker == tk) {
             for m in &d.matches {
                 if let (Rule::Bnb, Some(e)) = (rule_of(&m.rule), m.acquisition_date) {
-                    if days.range(d.date..e).any(|(_, day)| day.ratio != Rat::one()) {
+                    if days.range(d.date..=e).any(|(t, day)| *t != d.date && day.ratio != Rat::one()) {
                         return false;
                     }
                 }
